@@ -65,3 +65,21 @@ chk('C07', 'exploration',
     'runtime monitoring: independent recomputation oracle + permutation '
     'metamorphic relation over generated comparisons',
     'DESIGN.md section 4 (C07)')
+chk('C16', 'exploration',
+    'A node/edge-set reference model is updated alongside every public edit '
+    'of the real DepGraph in random histories (<= 40 steps: add/remove '
+    'node/edge, merge, +, +=, copy, invert) and all public queries are '
+    'compared after every step; earlier copies and derived graphs are '
+    're-checked against their frozen models; nested graphs (empty, one, many '
+    'nodes, two levels) are flattened and reachability among plain nodes is '
+    'compared with a virtual start/end-node reference; every digraph on <= 4 '
+    'labelled nodes and every DAG on 5 (thorough: every digraph on 5, for '
+    'cycle detection) is built two ways and its topological sort, reduction, '
+    'closure and depends() are compared with brute-force reachability; the '
+    'RList reverse-index invariant is evaluated at every comparison point and, '
+    'in dedicated shards, as an icontract class invariant.',
+    'identity-keyed nodes; algorithms only claimed on acyclic graphs; sampling '
+    'for histories, complete enumeration for the small-graph part',
+    'runtime monitoring: executable reference model compared after every '
+    'operation + exhaustive small-graph enumeration + icontract invariant',
+    'DESIGN.md section 4 (C16)')
